@@ -657,6 +657,23 @@ def run_tie(prop, spec, tier, seed):
         outs = run_impl(bins[elem], sets[cls])
         res.extra["impl_%s_mismatches" % elem] = report_impl(elem, cls, sets[cls], exp[cls], outs)
 
+    # trees: Array<Nest> where every element owns an Array<Nest>; assignments whose right-hand side is owned by an element of
+    # the left-hand side, compared inside the program with the same operations on std::vector (lifetime-tracked ids, ASan)
+    nb, nout = lib.build_harness("arr_nest", ["harness/array/arr_nest.cpp"], extra_flags=["-fno-sanitize=nonnull-attribute"], deps=DEPS)
+    if nb is None:
+        res.failures.append(Failure("infra", "harness arr_nest does not compile against the working tree", replay={"compiler": (nout or "")[-3000:]}))
+    else:
+        out, rc, err = run_binary(nb, [], {"ASAN_OPTIONS": lib.ASAN_ENV["ASAN_OPTIONS"]})
+        bad = [l for l in out if l.startswith("MISMATCH")]
+        done = [l for l in out if l.startswith("done ")]
+        res.extra["nested_array_scenarios"] = len([l for l in out if l.startswith("ok ")])
+        if bad or rc != 0 or not done:
+            last = out[-1] if out else ""
+            what = bad[0] if bad else "crashed after `%s`: %s" % (last, summarize(err))
+            res.failures.append(Failure("violation", "Array<Nest> (elements owning Arrays of the same type), assignment from an Array owned by an element of the target: %s" % what,
+                                        signature="arr_nest|" + (bad[0] if bad else last),
+                                        replay={"component": "array", "program": "harness/array/arr_nest.cpp", "output": out[-20:], "stderr": err[-3000:]}))
+
     nm = 0
     for cls, cases in sets.items():
         # the executable model works on lists: histories with more than 5000 elements are compared oracle <-> code only
